@@ -99,25 +99,20 @@ def run(ctx):
     for i, c in enumerate(rnd.sample(cases, min(len(cases), 400 if q else 8000))):
         odd = odds[i % len(odds)]
         extra.append(dict(c, f=rename(T(c['f']), odd), back={v: k for k, v in odd.items()}, style=rnd.choice(['obj', 'raw'])))
-    consts = [TR, FA]
-    xs = [P, ('not', P), ('U', P, Q), ('not', ('U', FA, P)), ('U', FA, P), ('R', TR, Q)]
+    # two temporal operators over a VACUOUS until / release (a constant operand makes the binary operator collapse: false U x
+    # is x, true U x is F x, x R false is false, ...), plain and negated: rewriting rules that recognise an "eventually" or
+    # "always" by its shape must not take these for one
     chains = []
-    for o1 in ('F', 'G', 'X', 'not'):
-        for o2 in ('F', 'G', 'X', 'not'):
-            for o3 in ('F', 'G', 'not', None):
-                for b in ('U', 'R', 'and', 'or', 'imp'):
-                    for c0 in consts:
-                        for x in xs:
-                            for order in (0, 1):
-                                core = (b, c0, x) if order == 0 else (b, x, c0)
-                                g = (o3, core) if o3 else core
-                                chains.append((o1, (o2, g)))
-    for g in rnd.sample(chains, 150 if q else 1500):
+    for o1 in ('F', 'G', 'X'):
+        for o2 in ('F', 'G', 'X'):
+            for x in (P, ('not', P)):
+                for core in (('U', FA, x), ('R', TR, x), ('U', x, TR), ('R', x, FA), ('U', TR, x), ('R', FA, x)):
+                    chains.append((o1, (o2, core)))
+                    chains.append((o1, (o2, ('not', core))))
+    for g in (chains if q else chains + [('not', g) for g in chains]):
         extra.append({'op': 'restrict', 'logic': 'LTL', 'kind': 'path', 'f': g})
-        if rnd.random() < 0.3:
-            extra.append({'op': 'restrict', 'logic': 'CTLS', 'kind': 'path', 'f': g})
         if rnd.random() < 0.15:
-            extra.append({'op': 'restrict', 'logic': 'CTLS', 'kind': 'state', 'f': (rnd.choice('AE'), g)})
+            extra.append({'op': 'restrict', 'logic': 'CTLS', 'kind': 'path', 'f': g})
     cases += extra
     for i, c in enumerate(cases):
         c['tid'] = i
